@@ -465,6 +465,16 @@ def check_strength(rep, rule, key, pid, prog, fn, enum_path, variant, need_a, ne
     frozen_d = baseline("%s.gate-deciders.%s" % (pid, key), dec)
     new = [d for d in dec if d not in frozen_d]
     where = [gs["host"].block_line(b) for b, d in gs["deciders"] if coarse_condition(d) in new]
+    # structural deciders (Option/enum matches, loop exhaustion) are legitimate, but a NEW one is a new success path that skips
+    # the gate (`let Some(last) = xs.last() else { return Ok(default) }` in front of a tail check): their number is frozen
+    # (counted over ALL deciders: `if end > len {..}` and `.filter(|end| *end <= len)` + let-else are the same bypass in two classes)
+    n_struct = len(gs["deciders"])
+    frozen_n = baseline("%s.gate-decider-count.%s" % (pid, key), [str(n_struct)])
+    more = n_struct > int(frozen_n[0]) if frozen_n else False
+    where_s = [gs["host"].block_line(b) for b, d in gs["deciders"]]
+    rep.check(not more, rule, key + ":no-new-bypass", "%d structural bypass path(s), as confirmed" % n_struct,
+              "the gate can now be skipped at %d branch points (confirmed: %s; deciders at lines %s): a new early success return precedes the validation" % (
+                  n_struct, frozen_n[0] if frozen_n else "?", where_s), site=gs["host"].loc())
     rep.check(not new, rule, key + ":unconditional", "no new value test decides whether the gate runs (%d structural deciders)" % len(gs["deciders"]),
               "the gate is now skipped depending on %s (line %s): a success return is reachable without the comparison" % (new, where), site=gs["host"].loc())
 
